@@ -2,6 +2,7 @@ package props
 
 import (
 	"fmt"
+	restful "github.com/emicklei/go-restful/v3"
 	"strings"
 
 	"restsim/sim"
@@ -18,6 +19,7 @@ type c11Scen struct {
 	Plains      []PlainSpec `json:"plain_handlers"`
 	Ops         []AdminOp   `json:"history"`
 	EveryPrefix bool        `json:"probe_after_every_prefix"`
+	NoTrim      bool        `json:"trim_right_slash_off,omitempty"`
 }
 
 var c11Roots = []string{"/a", "/b", "/a/{v}", "/", "/a/", "/a/b", "/ab", "/{v}", "/a/{v}/x", "/a/{v}/y", "/users/{id}/a", "/users/{id}/b"}
@@ -116,6 +118,7 @@ func genC11(x *Ctx) *c11Scen {
 			sc.Ops = append(sc.Ops, AdminOp{Kind: kind, Plain: p.ID})
 		}
 	})
+	sc.NoTrim = tp.Chance(120)
 	return sc
 }
 
@@ -170,6 +173,7 @@ func c11Probes(sc *c11Scen) []Probe {
 
 func runC11(x *Ctx) {
 	sc := genC11(x)
+	restful.TrimRightSlashEnabled = !sc.NoTrim
 	x.Res.Scenario = sc
 	x.Res.ScenHash = sim.HashString(jsonStr(sc))
 	s := x.Sim
